@@ -64,6 +64,6 @@ Proof.
     assert (Hh : 2 ^ C17.Model.BINT_BITS / 2 = 2 ^ (BN_BITS - 1)) by reflexivity.
     rewrite Hh in Hint, Hflt. unfold v in *. rewrite dval_digits in *.
     destruct (Z.lt_ge_cases (digits_value 10 0 (map C17.ProofsText.cval cs)) (2 ^ (BN_BITS - 1))) as [Hlt|Hge].
-    + rewrite read_dec_complete by lia. destruct (Hint Hlt) as (x & E & Hwf & _ & Hs). exists x. repeat split; assumption.
+    + rewrite read_dec_complete by lia. destruct (Hint Hlt) as (x & E & Hwf & _ & Hs). exists x. split; [exact E|]. split; [exact Hwf|exact Hs].
     + rewrite read_dec_float by lia. apply Hflt. exact Hge.
 Qed.
